@@ -1,9 +1,7 @@
 /-
   RoProofs.MultiB.Zip — ZipWith1…5 / Zip2…6: for every arity, every tuple of source scripts and every
   interleaving the delivered trace is the zip of the k-th values, completed once a finished source's
-  values are used up — outside the known deviation (a source completing while values of its own are
-  still queued cancels everything), which is excluded by `Known.zipCompleteUnsub` and witnessed in
-  RoProps/C05b.lean.
+  values are used up.
 -/
 import RoProofs.MultiB.Arrivals
 import RoModel.MultiB.Zip
@@ -12,7 +10,10 @@ open Spec
 variable {α : Type}
 
 theorem zipStep_subs (n : Nat) (st : ZipSt α) (i : Nat) (x : Ev α) : (zipStep n st i x).subscribe = [] := by
-  cases x <;> rfl
+  cases x with
+  | next v => rfl
+  | error e => rfl
+  | complete => simp only [zipStep]; split <;> rfl
 
 theorem zipStep_gated (n : Nat) (st : ZipSt α) (i : Nat) (x : Ev α) :
     gateEv (zipStep n st i x).emits = (zipStep n st i x).emits := by
@@ -37,9 +38,9 @@ structure ZInv (n : Nat) (a : Acc (ZipSt α) (List α)) (past : Arr α) (k : Nat
   running : a.running = true
   q : ∀ j, j < n → a.st.q j = (valsOf j past).drop k
   kle : ∀ j, j < n → k ≤ (valsOf j past).length
-  nocomp : ∀ j, j < n → a.st.completed j = false
-  noterm : ∀ j, j < n → completed j past = false
+  compl : ∀ j, j < n → a.st.completed j = completed j past
   notready : rowReady n k past = false
+  notdrained : drained n k past = false
 
 theorem drop_isEmpty {γ : Type} (l : List γ) (k : Nat) : (!(l.drop k).isEmpty) = decide (k < l.length) := by
   by_cases h : k < l.length
@@ -55,8 +56,7 @@ theorem drop_isEmpty {γ : Type} (l : List γ) (k : Nat) : (!(l.drop k).isEmpty)
     simp [this, h]
 
 theorem zip_abs (n : Nat) (rest : Arr α) (a : Acc (ZipSt α) (List α)) (past : Arr α) (k : Nat)
-    (hinv : ZInv n a past k) (hlt : ∀ p ∈ rest, p.1 < n)
-    (hk : Known.zipCompleteUnsub n past k rest = false) :
+    (hinv : ZInv n a past k) (hlt : ∀ p ∈ rest, p.1 < n) :
     (rest.foldl (zipM n).absStep a).out = a.out ++ zipFrom n past k rest := by
   induction rest generalizing a past k with
   | nil => simp [zipFrom]
@@ -65,9 +65,11 @@ theorem zip_abs (n : Nat) (rest : Arr α) (a : Acc (ZipSt α) (List α)) (past :
     have hi : i < n := hlt (i, x) (List.mem_cons_self ..)
     have hlt' : ∀ p ∈ r, p.1 < n := fun p hp => hlt p (List.mem_cons_of_mem _ hp)
     simp only [List.foldl_cons]
+    have hnd := hinv.notdrained
+    unfold drained at hnd
+    rw [List.any_eq_false] at hnd
     cases x with
     | next v =>
-      simp only [Known.zipCompleteUnsub] at hk
       -- the queues after the append
       have hq' : ∀ j, j < n → (upd a.st.q i (a.st.q i ++ [v])) j = (valsOf j (past ++ [(i, .next v)])).drop k := by
         intro j hj
@@ -83,8 +85,8 @@ theorem zip_abs (n : Nat) (rest : Arr α) (a : Acc (ZipSt α) (List α)) (past :
         apply all_range_congr
         intro j hj
         rw [hq' j hj, drop_isEmpty]
-      have hcompl : ∀ j, j < n → completed j (past ++ [(i, .next v)]) = false := by
-        intro j hj; rw [completed_snoc_next]; exact hinv.noterm j hj
+      have hcompl : ∀ j, j < n → a.st.completed j = completed j (past ++ [(i, .next v)]) := by
+        intro j hj; rw [completed_snoc_next]; exact hinv.compl j hj
       have hlen : ∀ j, j < n → (valsOf j past).length ≤ (valsOf j (past ++ [(i, .next v)])).length := by
         intro j _
         rw [valsOf_snoc_next]
@@ -95,11 +97,20 @@ theorem zip_abs (n : Nat) (rest : Arr α) (a : Acc (ZipSt α) (List α)) (past :
             { st := { a.st with q := upd a.st.q i (a.st.q i ++ [v]) }, out := a.out, running := true } := by
           simp only [Machine.absStep, hinv.running, if_true, zipM, zipStep, zipOnUpdate, hready, hr, id]
           simp [hasTerm]
+        have hnd' : drained n k (past ++ [(i, .next v)]) = false := by
+          unfold drained
+          rw [List.any_eq_false]
+          intro j hj
+          have hjn := List.mem_range.mp hj
+          have h0 := hnd j hj
+          rw [completed_snoc_next]
+          simp only [Bool.and_eq_true, decide_eq_true_eq, not_and] at h0 ⊢
+          intro hc hle
+          exact h0 hc (Nat.le_trans (hlen j hjn) hle)
         have hinv' : ZInv n ((zipM n).absStep a (i, .next v)) (past ++ [(i, .next v)]) k := by
           rw [hstep]
-          exact ⟨rfl, hq', fun j hj => Nat.le_trans (hinv.kle j hj) (hlen j hj), hinv.nocomp, hcompl, hr⟩
-        rw [hr] at hk
-        rw [ih _ _ _ hinv' hlt' hk, hstep]
+          exact ⟨rfl, hq', fun j hj => Nat.le_trans (hinv.kle j hj) (hlen j hj), hcompl, hr, hnd'⟩
+        rw [ih _ _ _ hinv' hlt', hstep]
         simp [zipFrom, hr]
       · -- a row is complete: pop it
         have hrow : (List.range n).filterMap (fun j => ((upd a.st.q i (a.st.q i ++ [v])) j).head?) =
@@ -108,21 +119,26 @@ theorem zip_abs (n : Nat) (rest : Arr α) (a : Acc (ZipSt α) (List α)) (past :
           apply filterMap_range_congr
           intro j hj
           rw [hq' j hj, List.head?_drop]
-        have hnocompl : (List.range n).any (fun j => a.st.completed j && ((upd a.st.q i (a.st.q i ++ [v])) j).tail.isEmpty) = false := by
-          rw [List.any_eq_false]
-          intro j hj
-          simp [hinv.nocomp j (List.mem_range.mp hj)]
-        have hstep : (zipM n).absStep a (i, .next v) =
-            { st := { a.st with q := fun j => ((upd a.st.q i (a.st.q i ++ [v])) j).tail },
-              out := a.out ++ [.next (row n k (past ++ [(i, .next v)]))], running := true } := by
-          simp only [Machine.absStep, hinv.running, if_true, zipM, zipStep, zipOnUpdate, hready, hr, id, hrow, hnocompl]
-          simp [hasTerm]
         have hkl : ∀ j, j < n → k < (valsOf j (past ++ [(i, .next v)])).length := by
           intro j hj
           have := hr
           unfold rowReady at this
           rw [List.all_eq_true] at this
           simpa using this j (List.mem_range.mpr hj)
+        have hdone : (List.range n).any (fun j => a.st.completed j && ((upd a.st.q i (a.st.q i ++ [v])) j).tail.isEmpty) =
+            drained n (k + 1) (past ++ [(i, .next v)]) := by
+          unfold drained
+          apply any_range_congr
+          intro j hj
+          rw [hcompl j hj, hq' j hj, List.tail_drop]
+          congr 1
+          have := drop_isEmpty (valsOf j (past ++ [(i, .next v)])) (k + 1)
+          have hb : ((valsOf j (past ++ [(i, .next v)])).drop (k + 1)).isEmpty = !decide (k + 1 < (valsOf j (past ++ [(i, .next v)])).length) := by
+            rw [← this]; simp
+          rw [hb]
+          by_cases hlt2 : k + 1 < (valsOf j (past ++ [(i, .next v)])).length
+          · simp [hlt2]
+          · simp [hlt2]; omega
         have hnr : rowReady n (k + 1) (past ++ [(i, .next v)]) = false := by
           have h0 := hinv.notready
           unfold rowReady at h0 ⊢
@@ -138,49 +154,95 @@ theorem zip_abs (n : Nat) (rest : Arr α) (a : Acc (ZipSt α) (List α)) (past :
             simp; omega
           · simp only [hij, if_false] at hnow
             omega
-        have hdr : drained n (k + 1) (past ++ [(i, .next v)]) = false := by
-          unfold drained
-          rw [List.any_eq_false]
-          intro j hj
-          simp [hcompl j (List.mem_range.mp hj)]
-        have hinv' : ZInv n ((zipM n).absStep a (i, .next v)) (past ++ [(i, .next v)]) (k + 1) := by
-          rw [hstep]
-          refine ⟨rfl, ?_, fun j hj => hkl j hj, hinv.nocomp, hcompl, hnr⟩
-          intro j hj
-          show ((upd a.st.q i (a.st.q i ++ [v])) j).tail = _
-          rw [hq' j hj, List.tail_drop]
-        rw [hr] at hk
-        rw [ih _ _ _ hinv' hlt' hk, hstep]
-        simp [zipFrom, hr, hdr, List.append_assoc]
+        cases hdr : drained n (k + 1) (past ++ [(i, .next v)])
+        · have hstep : (zipM n).absStep a (i, .next v) =
+              { st := { a.st with q := fun j => ((upd a.st.q i (a.st.q i ++ [v])) j).tail },
+                out := a.out ++ [.next (row n k (past ++ [(i, .next v)]))], running := true } := by
+            simp only [Machine.absStep, hinv.running, if_true, zipM, zipStep, zipOnUpdate, hready, hr, id, hrow, hdone, hdr]
+            simp [hasTerm]
+          have hinv' : ZInv n ((zipM n).absStep a (i, .next v)) (past ++ [(i, .next v)]) (k + 1) := by
+            rw [hstep]
+            refine ⟨rfl, ?_, fun j hj => hkl j hj, hcompl, hnr, hdr⟩
+            intro j hj
+            show ((upd a.st.q i (a.st.q i ++ [v])) j).tail = _
+            rw [hq' j hj, List.tail_drop]
+          rw [ih _ _ _ hinv' hlt', hstep]
+          simp [zipFrom, hr, hdr, List.append_assoc]
+        · have hstep : (zipM n).absStep a (i, .next v) =
+              { st := { a.st with q := fun j => ((upd a.st.q i (a.st.q i ++ [v])) j).tail },
+                out := a.out ++ [.next (row n k (past ++ [(i, .next v)])), .complete], running := false } := by
+            simp only [Machine.absStep, hinv.running, if_true, zipM, zipStep, zipOnUpdate, hready, hr, id, hrow, hdone, hdr]
+            simp [hasTerm]
+          rw [hstep, abs_stopped_out _ _ _ rfl]
+          simp [zipFrom, hr, hdr]
     | error e =>
       have hstep : (zipM n).absStep a (i, .error e) =
-          { st := { a.st with completed := upd a.st.completed i true }, out := a.out ++ [.error e], running := false } := by
+          { st := a.st, out := a.out ++ [.error e], running := false } := by
         simp [Machine.absStep, hinv.running, zipM, zipStep, hasTerm]
       rw [hstep, abs_stopped_out _ _ _ rfl]
       simp [zipFrom]
     | complete =>
-      simp only [Known.zipCompleteUnsub, decide_eq_false_iff_not, Nat.not_lt] at hk
-      have hempty : (a.st.q i).isEmpty = true := by
+      -- the spec's "some finished source is drained" can only be the source that has just completed
+      have hdr : drained n k (past ++ [(i, .complete)]) = (a.st.q i).isEmpty := by
         rw [hinv.q i hi]
-        simp [List.drop_eq_nil_of_le hk]
-      have hstep : (zipM n).absStep a (i, .complete) =
-          { st := { a.st with completed := upd a.st.completed i true }, out := a.out ++ [.complete], running := false } := by
-        simp [Machine.absStep, hinv.running, zipM, zipStep, hasTerm, hempty]
-      rw [hstep, abs_stopped_out _ _ _ rfl]
-      have hdr : drained n k (past ++ [(i, .complete)]) = true := by
+        have hself : (completed i (past ++ [(i, .complete)]) && decide ((valsOf i (past ++ [(i, .complete)])).length ≤ k)) =
+            ((valsOf i past).drop k).isEmpty := by
+          rw [completed_snoc_complete, valsOf_snoc_complete]
+          have := drop_isEmpty (valsOf i past) k
+          have hb : ((valsOf i past).drop k).isEmpty = !decide (k < (valsOf i past).length) := by rw [← this]; simp
+          rw [hb]
+          by_cases hlt2 : k < (valsOf i past).length
+          · simp [hlt2]
+          · simp [hlt2]; omega
         unfold drained
-        rw [List.any_eq_true]
-        refine ⟨i, List.mem_range.mpr hi, ?_⟩
-        rw [completed_snoc_complete, valsOf_snoc_complete]
-        simp [hk]
-      simp [zipFrom, hdr]
+        rw [← hself]
+        cases hs : (completed i (past ++ [(i, .complete)]) && decide ((valsOf i (past ++ [(i, .complete)])).length ≤ k))
+        · rw [List.any_eq_false]
+          intro j hj
+          by_cases hji : j = i
+          · subst hji; simp [hs]
+          · have h0 := hnd j hj
+            rw [completed_snoc_complete, valsOf_snoc_complete]
+            have : (i == j) = false := by simp; omega
+            simpa [this] using h0
+        · rw [List.any_eq_true]
+          exact ⟨i, List.mem_range.mpr hi, hs⟩
+      cases hempty : (a.st.q i).isEmpty
+      · have hstep : (zipM n).absStep a (i, .complete) =
+            { st := { a.st with completed := upd a.st.completed i true }, out := a.out, running := true } := by
+          simp [Machine.absStep, hinv.running, zipM, zipStep, hasTerm, hempty]
+        have hinv' : ZInv n ((zipM n).absStep a (i, .complete)) (past ++ [(i, .complete)]) k := by
+          rw [hstep]
+          refine ⟨rfl, ?_, ?_, ?_, ?_, by rw [hdr, hempty]⟩
+          · intro j hj; rw [valsOf_snoc_complete]; exact hinv.q j hj
+          · intro j hj; rw [valsOf_snoc_complete]; exact hinv.kle j hj
+          · intro j hj
+            rw [completed_snoc_complete]
+            by_cases hji : j = i
+            · subst hji; simp
+            · show upd a.st.completed i true j = _
+              rw [upd_other _ _ _ _ hji, hinv.compl j hj]
+              have : (i == j) = false := by simp; omega
+              simp [this]
+          · have h0 := hinv.notready
+            unfold rowReady at h0 ⊢
+            rw [← h0]
+            apply all_range_congr
+            intro j _
+            rw [valsOf_snoc_complete]
+        rw [ih _ _ _ hinv' hlt', hstep]
+        simp [zipFrom, hdr, hempty]
+      · have hstep : (zipM n).absStep a (i, .complete) =
+            { st := { a.st with completed := upd a.st.completed i true }, out := a.out ++ [.complete], running := false } := by
+          simp [Machine.absStep, hinv.running, zipM, zipStep, hasTerm, hempty]
+        rw [hstep, abs_stopped_out _ _ _ rfl]
+        simp [zipFrom, hdr, hempty]
 
 /-- **Zip = Spec.zip** for every arity `n ≥ 1`, every tuple of source scripts and every interleaving
-    outside the known class. Full statement (false on the pinned tree, see `zip_complete_unsub_witness`):
-    `∀ scripts order, (run (zipM n) scripts order).out = Spec.zip n (arrivals (scriptsFn scripts) order)`. -/
-theorem zip_spec_partial (n : Nat) (hn : 0 < n) (scripts : List (List (Ev α))) (hlen : scripts.length ≤ n)
-    (order : List Nat)
-    (hk : Known.zipCompleteUnsub n [] 0 (arrivals (scriptsFn scripts) order) = false) :
+    (in full since the fix b6f7afa: a source that completes while values of its own are still queued
+    no longer cancels the others). -/
+theorem zip_spec (n : Nat) (hn : 0 < n) (scripts : List (List (Ev α))) (hlen : scripts.length ≤ n)
+    (order : List Nat) :
     (run (zipM n) scripts order).out = Spec.zip n (arrivals (scriptsFn scripts) order) := by
   have hlen' : scripts.length ≤ (zipM (α := α) n).n := hlen
   rw [run_out_abs (zipM n) (zip_allHot n) scripts hlen' order]
@@ -190,11 +252,13 @@ theorem zip_spec_partial (n : Nat) (hn : 0 < n) (scripts : List (List (Ev α))) 
     · intro j _; rfl
     · intro j _; exact Nat.zero_le _
     · intro j _; rfl
-    · intro j _; rfl
     · unfold rowReady
       rw [List.all_eq_false]
       exact ⟨0, List.mem_range.mpr hn, by simp [valsOf]⟩
-  rw [zip_abs n _ _ [] 0 hinv (arrivals_lt n order _ (scriptsFn_out_of_range scripts n hlen)) hk]
+    · unfold drained
+      rw [List.any_eq_false]
+      intro j _; simp [completed]
+  rw [zip_abs n _ _ [] 0 hinv (arrivals_lt n order _ (scriptsFn_out_of_range scripts n hlen))]
   rfl
 
 end Ro.MultiB
